@@ -6,6 +6,7 @@ together with the object types it refers to, stands for.
 import EdxmlModel.Ontology.Cmp
 import EdxmlModel.DataType.Gate
 import EdxmlModel.Event.Hash
+import EdxmlModel.Event.Merge
 namespace Edxml.Ont
 open Edxml Edxml.Gate
 
@@ -47,5 +48,28 @@ def validUnder (sem : RegexSem) (cls : String → Bool × Bool × Bool) (ots : L
 
 /-- `EventType.get_hashed_properties()` -/
 def hashedOfType (et : EventTypeDef) : List String := (et.props.filter (·.merge == "match")).map (·.name)
+
+/-- the merge strategy an event type definition names -/
+def strategyOf : String → Strategy
+  | "match" => .match_
+  | "add" => .add
+  | "replace" => .replace
+  | "set" => .set
+  | "min" => .min
+  | "max" => .max
+  | _ => .any
+
+/-- min/max compare numerically for the number families and `sequence`, as strings otherwise -/
+def numericDt (dt : String) : Bool :=
+  match family dt with
+  | .int _ _ | .float _ | .decimal _ _ _ | .sequence => true
+  | _ => false
+
+/-- what `EventType.merge_events` reads from the definition of an event type -/
+def mergeSpecs (ots : List ObjectTypeDef) (et : EventTypeDef) : List PropSpec :=
+  et.props.map fun p =>
+    { name := p.name, merge := strategyOf p.merge,
+      numeric := numericDt (((findBy (·.name) p.objectType ots).map (·.dataType)).getD "") }
+
 
 end Edxml.Ont
